@@ -63,3 +63,7 @@ Fixpoint wr (m : mem) (a : Z) (l : list Z) : mem :=
   | [] => m
   | w :: r => wr (upd m a w) (a + 1) r
   end.
+
+(* extensional equality of memories (the development uses no functional
+   extensionality axiom) *)
+Definition mem_eq (m1 m2 : mem) : Prop := forall a, m1 a = m2 a.
